@@ -27,6 +27,31 @@ open Psutil.C01 Psutil.C01.Spec
 /-- `BOOT_TIME` is written once and `create_time()` uses it -/
 theorem cfg_good : cfg.BootGood := ⟨by decide, by decide⟩
 
+/-- **cfg_identity_shape** (obligation on the source of `__eq__` / `__ne__` / `__hash__` and on every store to the
+    attributes identity rests on; the model's `Call.eq` compares `_ident`, `Call.hash` returns a function of `_ident`
+    alone, and `mkObj` / `isRunningO` / the signal path are the only writers of `_ident`, `_gone`, `_pid_reused`):
+    * `==` answers `NotImplemented` for anything that is not an instance of `Process` — SUBCLASS instances
+      (`psutil.Popen`) included in the comparison — and otherwise compares `_ident` (the OpenBSD/NetBSD block is not
+      executed on Linux); `!=` is its negation;
+    * `hash()` is `hash(self._ident)`, memoised in `_hash`, which is reset nowhere;
+    * `_ident` is stored in `_init` only (provisional `(pid, None)`, then `_get_ident()`); `_pid_reused` in `_init`
+      and `is_running` only; `_gone` in `_init` (False; True under `_ignore_nsp`: psutil.Popen over a reaped child,
+      outside the model), `is_running` and `_send_signal` (ESRCH) only; `_create_time` is the memo of `create_time()`.
+    An edit that makes `==` class-sensitive, hashes something else, re-computes `_ident` or clears a sticky flag
+    changes one of these lists. -/
+theorem cfg_identity_shape :
+    Gen.C02.eqShape = ["def(self, other)", "if not isinstance(other, Process): return NotImplemented",
+        "if OPENBSD or NETBSD: <not Linux>", "return self._ident == other._ident"]
+    ∧ Gen.C02.neShape = ["def(self, other)", "return not self == other"]
+    ∧ Gen.C02.hashShape = ["def(self)", "if self._hash is None: self._hash = hash(self._ident)", "return self._hash"]
+    ∧ Gen.C02.identityStores = ["_init: self._create_time = None", "_init: self._gone = False",
+        "_init: self._pid_reused = False", "_init: self._hash = None", "_init: self._ident = (self.pid, None)",
+        "_init: self._ident = self._get_ident()", "_init: self._gone = True",
+        "_get_ident: self._create_time = self._proc.create_time(fast_only=True)",
+        "__hash__: self._hash = hash(self._ident)", "is_running: self._pid_reused = self != Process(self.pid)",
+        "is_running: self._gone = True", "create_time: self._create_time = self._proc.create_time()",
+        "_send_signal: self._gone = True"] := by decide
+
 /-- **C02_ghost_meaning.** What the specification calls the object's process start (`ghost`) is the start
     stamp of the incarnation owning the PID at the instant `Process(pid)` succeeded — in any state. -/
 theorem C02_ghost_meaning (s : St) (pid : Int) (i : Nat)
@@ -55,39 +80,24 @@ theorem C02_ghost_meaning (s : St) (pid : Int) (i : Nat)
 theorem C02_eq_iff_same_incarnation (b0 : Nat) (hb0 : BtOK cfg.createNoneTest b0) (h : List Ev) (hh : HistOK cfg.createNoneTest h)
     (i j : Nat) (a b : PObj)
     (ha : (run cfg (St.init b0) h).ps.objs[i]? = some a) (hb : (run cfg (St.init b0) h).ps.objs[j]? = some b) :
-    (step cfg (run cfg (St.init b0) h) (.c (.eq i j))).2 = .bool (decide (SameIncarnation a b)) := by
-  have hinv := run_inv cfg_good h _ hh (init_inv cfg.clk hb0)
-  generalize run cfg (St.init b0) h = s at *
-  obtain ⟨B, hoa, hob⟩ := shared_boot hinv ha hb
-  rw [step_eq_out cfg s ha hb]
-  congr 1
-  rw [hoa.ident_eq, hob.ident_eq, Bool.eq_iff_iff, decide_eq_true_iff]
-  simp [SameIncarnation]
+    (step cfg (run cfg (St.init b0) h) (.c (.eq i j))).2 = .bool (decide (SameIncarnation a b)) :=
+  eq_iff_same_gen cfg_good b0 hb0 h hh i j a b ha hb
 
 /-- **C02_hash_congr.** Equal objects hash alike. -/
 theorem C02_hash_congr (b0 : Nat) (hb0 : BtOK cfg.createNoneTest b0) (h : List Ev) (hh : HistOK cfg.createNoneTest h)
     (i j : Nat) (a b : PObj)
     (ha : (run cfg (St.init b0) h).ps.objs[i]? = some a) (hb : (run cfg (St.init b0) h).ps.objs[j]? = some b)
     (hsame : SameIncarnation a b) :
-    (step cfg (run cfg (St.init b0) h) (.c (.hash i))).2 = (step cfg (run cfg (St.init b0) h) (.c (.hash j))).2 := by
-  have hinv := run_inv cfg_good h _ hh (init_inv cfg.clk hb0)
-  generalize run cfg (St.init b0) h = s at *
-  obtain ⟨B, hoa, hob⟩ := shared_boot hinv ha hb
-  rw [step_hash_out cfg s ha, step_hash_out cfg s hb, hoa.ident_eq, hob.ident_eq, hsame.1, hsame.2]
+    (step cfg (run cfg (St.init b0) h) (.c (.hash i))).2 = (step cfg (run cfg (St.init b0) h) (.c (.hash j))).2 :=
+  hash_congr_gen cfg_good b0 hb0 h hh i j a b ha hb hsame
 
 /-- **C02_isRunning_iff_listed.** After any history, `is_running()` is True exactly when the incarnation the
     object was built for is still in the process table (a zombie is still listed), False otherwise —
     including when the PID is alive again under another process. -/
 theorem C02_isRunning_iff_listed (b0 : Nat) (hb0 : BtOK cfg.createNoneTest b0) (h : List Ev) (hh : HistOK cfg.createNoneTest h) (i : Nat) (o : PObj)
     (ho : (run cfg (St.init b0) h).ps.objs[i]? = some o) :
-    (step cfg (run cfg (St.init b0) h) (.c (.isRunning i))).2 = .bool (listedB (run cfg (St.init b0) h).kern o) := by
-  have hinv := run_inv cfg_good h _ hh (init_inv cfg.clk hb0)
-  generalize run cfg (St.init b0) h = s at *
-  obtain ⟨B, hB, hok⟩ := hinv.ps.objs o (List.mem_of_getElem? ho)
-  have hs := isRunningO_spec cfg_good hB (hinv.ps.boot_nz B hB) hok
-  rw [step_isRunning_out cfg s ho]
-  congr 1
-  rw [Bool.eq_iff_iff, hs.iff, listedB_iff, listed_iff_owner hinv.kern]
+    (step cfg (run cfg (St.init b0) h) (.c (.isRunning i))).2 = .bool (listedB (run cfg (St.init b0) h).kern o) :=
+  isRunning_iff_listed_gen cfg_good b0 hb0 h hh i o ho
 
 /-- a zombie is still listed: `exit` alone never changes any `is_running()` answer's specification -/
 theorem C02_zombie_still_listed (k : Kernel) (o : PObj) (pid : Nat) :
@@ -108,24 +118,8 @@ theorem C02_zombie_still_listed (k : Kernel) (o : PObj) (pid : Nat) :
 theorem C02_isRunning_sticky (b0 : Nat) (hb0 : BtOK cfg.createNoneTest b0) (h : List Ev) (hh : HistOK cfg.createNoneTest h) (i : Nat) (o : PObj)
     (ho : (run cfg (St.init b0) h).ps.objs[i]? = some o)
     (hgone : ¬ Listed (run cfg (St.init b0) h).kern o) (h2 : List Ev) (hh2 : HistOK cfg.createNoneTest h2) :
-    (step cfg (run cfg (run cfg (St.init b0) h) h2) (.c (.isRunning i))).2 = .bool false := by
-  have hinv := run_inv cfg_good h _ hh (init_inv cfg.clk hb0)
-  generalize run cfg (St.init b0) h = s at *
-  have hinv2 := run_inv cfg_good h2 s hh2 hinv
-  obtain ⟨o', ho', hevo⟩ := run_ext cfg_good h2 s hh2 hinv i o ho
-  obtain ⟨B, hB, hok⟩ := hinv.ps.objs o (List.mem_of_getElem? ho)
-  have hdead : s.kern.owner o.pid ≠ some o.ghost := fun e => hgone ((listed_iff_owner hinv.kern o).2 e)
-  have hdead2 := run_dead (c := cfg) o.pid o.ghost h2 s hok.ghost_lt hdead
-  obtain ⟨B', hB', hok'⟩ := hinv2.ps.objs o' (List.mem_of_getElem? ho')
-  have hs := isRunningO_spec cfg_good hB' (hinv2.ps.boot_nz B' hB') hok'
-  rw [step_isRunning_out cfg _ ho']
-  congr 1
-  cases hr : (isRunningO cfg (run cfg s h2).kern (run cfg s h2).ps o').2.2 with
-  | false => rfl
-  | true =>
-    have := hs.iff.1 hr
-    rw [hevo.pid, hevo.ghost] at this
-    exact absurd this hdead2
+    (step cfg (run cfg (run cfg (St.init b0) h) h2) (.c (.isRunning i))).2 = .bool false :=
+  isRunning_sticky_gen cfg_good b0 hb0 h hh i o ho hgone h2 hh2
 
 /-- the answer given by `is_running()` itself is sticky: after it returned False once, it returns False
     ever after -/
@@ -159,14 +153,41 @@ theorem C02_answers_stable (b0 : Nat) (hb0 : BtOK cfg.createNoneTest b0) (h : Li
     (step cfg (run cfg (run cfg (St.init b0) h) h2) (.c (.eq i j))).2
         = (step cfg (run cfg (St.init b0) h) (.c (.eq i j))).2
     ∧ (step cfg (run cfg (run cfg (St.init b0) h) h2) (.c (.hash i))).2
-        = (step cfg (run cfg (St.init b0) h) (.c (.hash i))).2 := by
-  have hinv := run_inv cfg_good h _ hh (init_inv cfg.clk hb0)
-  generalize run cfg (St.init b0) h = s at *
-  obtain ⟨a', ha', ea⟩ := run_ext cfg_good h2 s hh2 hinv i a ha
-  obtain ⟨b', hb', eb⟩ := run_ext cfg_good h2 s hh2 hinv j b hb
-  rw [step_eq_out cfg _ ha' hb', step_eq_out cfg s ha hb, step_hash_out cfg _ ha', step_hash_out cfg s ha,
-    ea.pid, ea.ident, eb.pid, eb.ident]
-  exact ⟨rfl, rfl⟩
+        = (step cfg (run cfg (St.init b0) h) (.c (.hash i))).2 :=
+  answers_stable_gen cfg_good b0 hb0 h hh i j a b ha hb h2 hh2
+
+/-- **C02_object_constant.** What an object IS never changes: after any continuation of the history the object under
+    index `i` still has the PID, the process start it was built for (`ghost`) and the `_ident` it had; the sticky
+    flags `_gone` / `_pid_reused` are only ever set, never cleared. -/
+theorem C02_object_constant (b0 : Nat) (hb0 : BtOK cfg.createNoneTest b0) (h : List Ev) (hh : HistOK cfg.createNoneTest h)
+    (i : Nat) (o : PObj) (ho : (run cfg (St.init b0) h).ps.objs[i]? = some o)
+    (h2 : List Ev) (hh2 : HistOK cfg.createNoneTest h2) :
+    ∃ o', (run cfg (run cfg (St.init b0) h) h2).ps.objs[i]? = some o' ∧ o'.pid = o.pid ∧ o'.ghost = o.ghost
+      ∧ o'.ident = o.ident ∧ (o.gone = true → o'.gone = true) ∧ (o.reused = true → o'.reused = true) := by
+  obtain ⟨o', ho', e⟩ := object_constant_gen cfg_good b0 hb0 h hh i o ho h2 hh2
+  exact ⟨o', ho', e.pid, e.ghost, e.ident, e.gone, e.reused⟩
+
+/-- **C02_built_for_owner_at_construction** (the end-to-end reading of "built for the same process start"): an
+    object built by `Process(pid)` at ANY point of a history is, after ANY continuation, still an object of that PID
+    whose `ghost` — the only thing `SameIncarnation` / `Listed` look at besides the PID — is the start of the
+    incarnation that held the PID at the instant of the construction. -/
+theorem C02_built_for_owner_at_construction (b0 : Nat) (hb0 : BtOK cfg.createNoneTest b0) (h : List Ev)
+    (hh : HistOK cfg.createNoneTest h) (pid : Int) (i : Nat)
+    (hnew : (step cfg (run cfg (St.init b0) h) (.c (.newObj pid))).2 = .obj i)
+    (h2 : List Ev) (hh2 : HistOK cfg.createNoneTest h2) :
+    ∃ o, (run cfg (St.init b0) (h ++ .c (.newObj pid) :: h2)).ps.objs[i]? = some o ∧ (o.pid : Int) = pid
+      ∧ (run cfg (St.init b0) h).kern.owner o.pid = some o.ghost := by
+  obtain ⟨o, ho, hp, hown, _, _⟩ := C02_ghost_meaning (run cfg (St.init b0) h) pid i hnew
+  have hh1 : HistOK cfg.createNoneTest (h ++ [.c (.newObj pid)]) := fun e he => by
+    rcases List.mem_append.1 he with he | he
+    · exact hh e he
+    · rw [List.mem_singleton.1 he]; trivial
+  have hrun1 : run cfg (St.init b0) (h ++ [.c (.newObj pid)]) = (step cfg (run cfg (St.init b0) h) (.c (.newObj pid))).1 := by
+    rw [run_append]; rfl
+  obtain ⟨o', ho', e⟩ := object_constant_gen cfg_good b0 hb0 (h ++ [.c (.newObj pid)]) hh1 i o (by rw [hrun1]; exact ho) h2 hh2
+  refine ⟨o', ?_, by rw [e.pid]; exact hp, by rw [e.pid, e.ghost]; exact hown⟩
+  have : h ++ .c (.newObj pid) :: h2 = (h ++ [.c (.newObj pid)]) ++ h2 := by simp
+  rw [this, run_append]; exact ho'
 
 /-! ## Objects handed out by `process_iter()` -/
 
@@ -343,6 +364,11 @@ def IsRunningIffListed_Full (c : Cfg) : Prop :=
     (run c (St.init b0) h).ps.objs[i]? = some o →
     (step c (run c (St.init b0) h) (.c (.isRunning i))).2 = .bool (listedB (run c (St.init b0) h).kern o)
 
+/-- the two full statements hold for the configuration extracted from the source (they are the theorems
+    `C02_eq_iff_same_incarnation` / `C02_isRunning_iff_listed`; refuted below for the pre-fix `boot_time()`) -/
+theorem C02_full_statements : EqIffSame_Full cfg ∧ IsRunningIffListed_Full cfg :=
+  ⟨C02_eq_iff_same_incarnation, C02_isRunning_iff_listed⟩
+
 /-- **Lead L2 (proved).** With a `boot_time()` that rewrites BOOT_TIME, after `witnessL2` the two objects of
     the same live process compare unequal, and `is_running()` of the first one is False. -/
 theorem C02_bootrewrite_counterexample :
@@ -358,6 +384,104 @@ theorem C02_bootrewrite_counterexample :
   · intro H
     have := H 1000 (by decide) witnessL2 (by decide) 0 _ h0
     revert this; decide
+
+/-! ## A published boot time of 0 (RTC-less board before NTP steps the clock) — finding `C02-boottime-zero`
+
+Clock steps are INSIDE C02's quantifier, and a clock step is exactly what happens on a machine that boots with
+`btime 0` (no RTC: the epoch) and is then set by NTP.  `create_time()` as found computes `BOOT_TIME or boot_time()`: a
+cached `0.0` is falsy, so `boot_time()` is asked again on every call, and — `boot_time()` writing `BOOT_TIME` only while
+it is `None` — the cached 0.0 is never replaced: from then on every new identity follows the LIVE boot time.  The
+theorems above therefore carry `BtOK cfg.createNoneTest b` ("never 0", void once `create_time()` tests `BOOT_TIME is
+not None`: fixes/C02-boottime-zero.diff).  Below: the statements WITHOUT any hypothesis on the boot time
+(`HistOK true` allows every clock step), their refutation for the truthiness test, their proof for the `is not None`
+test, and `C02_btime0_as_extracted`, which says which of the two the source checked in this run is. -/
+
+def EqIffSame_AnyBoot_Full (c : Cfg) : Prop :=
+  ∀ (b0 : Nat) (h : List Ev), HistOK true h → ∀ (i j : Nat) (a b : PObj),
+    (run c (St.init b0) h).ps.objs[i]? = some a → (run c (St.init b0) h).ps.objs[j]? = some b →
+    (step c (run c (St.init b0) h) (.c (.eq i j))).2 = .bool (decide (SameIncarnation a b))
+
+def IsRunningIffListed_AnyBoot_Full (c : Cfg) : Prop :=
+  ∀ (b0 : Nat) (h : List Ev), HistOK true h → ∀ (i : Nat) (o : PObj),
+    (run c (St.init b0) h).ps.objs[i]? = some o →
+    (step c (run c (St.init b0) h) (.c (.isRunning i))).2 = .bool (listedB (run c (St.init b0) h).kern o)
+
+def AnswersStable_AnyBoot_Full (c : Cfg) : Prop :=
+  ∀ (b0 : Nat) (h : List Ev), HistOK true h → ∀ (i j : Nat) (a b : PObj),
+    (run c (St.init b0) h).ps.objs[i]? = some a → (run c (St.init b0) h).ps.objs[j]? = some b →
+    ∀ (h2 : List Ev), HistOK true h2 →
+    (step c (run c (run c (St.init b0) h) h2) (.c (.eq i j))).2 = (step c (run c (St.init b0) h) (.c (.eq i j))).2
+    ∧ (step c (run c (run c (St.init b0) h) h2) (.c (.hash i))).2 = (step c (run c (St.init b0) h) (.c (.hash i))).2
+
+/-- the extracted configuration with `create_time()` testing truthiness: `BOOT_TIME or boot_time()` (psutil as found) -/
+def cfgTruthy : Cfg := { cfg with createNoneTest := false }
+/-- … testing `BOOT_TIME is not None` (fixes/C02-boottime-zero.diff) -/
+def cfgNoneTest : Cfg := { cfg with createNoneTest := true }
+
+/-- a board that boots at the epoch: `Process(8)` captures `BOOT_TIME = 0.0`; NTP steps the clock (published btime 5);
+    `Process(8)` again, for the same live process -/
+def witnessBtime0 : List Ev := [.k (.spawn 8), .c (.newObj 8), .k (.setBtime 5), .c (.newObj 8)]
+
+example : HistOK true witnessBtime0 := by decide
+
+/-- **C02_any_boot_full_of_none_test** (full strength for the repaired source).  For ANY configuration in which
+    `BOOT_TIME` is written once and `create_time()` takes the cached value whenever it `is not None`, all clauses
+    hold for ALL histories and ALL initial boot times — 0 included, no hypothesis on clock steps. -/
+theorem C02_any_boot_full_of_none_test (c : Cfg) (hc : c.BootGood) (hn : c.createNoneTest = true) :
+    EqIffSame_AnyBoot_Full c ∧ IsRunningIffListed_AnyBoot_Full c ∧ AnswersStable_AnyBoot_Full c := by
+  refine ⟨?_, ?_, ?_⟩
+  · intro b0 h hh i j a b ha hb
+    exact eq_iff_same_gen hc b0 (Or.inl hn) h (hn ▸ hh) i j a b ha hb
+  · intro b0 h hh i o ho
+    exact isRunning_iff_listed_gen hc b0 (Or.inl hn) h (hn ▸ hh) i o ho
+  · intro b0 h hh i j a b ha hb h2 hh2
+    exact answers_stable_gen hc b0 (Or.inl hn) h (hn ▸ hh) i j a b ha hb h2 (hn ▸ hh2)
+
+/-- the repaired configuration satisfies the obligations -/
+theorem cfgNoneTest_good : cfgNoneTest.BootGood ∧ cfgNoneTest.createNoneTest = true :=
+  ⟨⟨cfg_good.once, cfg_good.cache⟩, rfl⟩
+
+/-- **C02_btime0_counterexample** (finding `C02-boottime-zero`, a defect against C02 as stated: the history consists
+    of a spawn, two `Process(pid)` and one clock step).  With the truthiness test, after `witnessBtime0` from a
+    published boot time of 0 the two objects of the same live process compare unequal and `is_running()` of the
+    first is False (it is flagged "PID reused"; with C01's guard its `terminate()` raises NoSuchProcess). -/
+theorem C02_btime0_counterexample :
+    ¬ EqIffSame_AnyBoot_Full cfgTruthy ∧ ¬ IsRunningIffListed_AnyBoot_Full cfgTruthy := by
+  have h0 : (run cfgTruthy (St.init 0) witnessBtime0).ps.objs[0]? = some ⟨8, some 0, some 0, false, false, 0⟩ := by
+    decide
+  have h1 : (run cfgTruthy (St.init 0) witnessBtime0).ps.objs[1]?
+      = some ⟨8, some (0 + cfg.clk * 5), some (0 + cfg.clk * 5), false, false, 0⟩ := by decide
+  constructor
+  · intro H
+    have := H 0 witnessBtime0 (by decide) 0 1 _ _ h0 h1
+    revert this; decide
+  · intro H
+    have := H 0 witnessBtime0 (by decide) 0 _ h0
+    revert this; decide
+
+/-- **C02_btime0_as_extracted.** Which of the two the source checked in this run is: either `create_time()` tests
+    `BOOT_TIME is not None` and the hypothesis-free statements hold for the extracted configuration, or it tests
+    truthiness and they are false for it.  (While the repair is pending the second disjunct is the true one; once it
+    has landed, `cfg_none_test` below becomes an obligation.) -/
+theorem C02_btime0_as_extracted :
+    (cfg.createNoneTest = true ∧ EqIffSame_AnyBoot_Full cfg ∧ IsRunningIffListed_AnyBoot_Full cfg
+        ∧ AnswersStable_AnyBoot_Full cfg)
+    ∨ (cfg.createNoneTest = false ∧ ¬ EqIffSame_AnyBoot_Full cfg ∧ ¬ IsRunningIffListed_AnyBoot_Full cfg) := by
+  cases hn : cfg.createNoneTest with
+  | true => exact Or.inl ⟨rfl, C02_any_boot_full_of_none_test cfg cfg_good hn⟩
+  | false =>
+    have hc : cfgTruthy = cfg := by
+      have : cfg = { cfg with createNoneTest := cfg.createNoneTest } := rfl
+      rw [this, hn]; rfl
+    exact Or.inr ⟨rfl, hc ▸ C02_btime0_counterexample.1, hc ▸ C02_btime0_counterexample.2⟩
+
+/- TO BE SWITCHED ON BY THE INTEGRATOR once fixes/C02-boottime-zero.diff has landed in /repo (then the fact `createBoot`
+   is "isNotNone"; before that the first line does not build):
+
+theorem cfg_none_test : cfg.createNoneTest = true := by decide
+theorem C02_any_boot_full : EqIffSame_AnyBoot_Full cfg ∧ IsRunningIffListed_AnyBoot_Full cfg ∧ AnswersStable_AnyBoot_Full cfg :=
+  C02_any_boot_full_of_none_test cfg cfg_good cfg_none_test
+-/
 
 /-! ## `(pid, None)` identities — CHARACTERISATION outside the property's quantifier
 
